@@ -1296,6 +1296,29 @@ class Emitter:
                     lean_id(f), ' '.join(d['params']), d['rty'], lean_id(f), names))
         return out
 
+def _emit_fns_grouped(self):
+    """[(functions of one SCC, Lean text)] in dependency order"""
+    out = []
+    for comp in self.order:
+        rec = self.done[comp[0]]['recursive']
+        if not rec:
+            out.append((comp, self.fn_text(comp[0], False))); continue
+        texts = []
+        for f in comp:
+            t = self.fn_text(f, True)
+            for g in comp:
+                t = re.sub(r'← %s fuel T ' % re.escape(lean_id(g)), '← %s_fuel fuel T ' % lean_id(g), t)
+                t = re.sub(r'then %s fuel T ' % re.escape(lean_id(g)), 'then %s_fuel fuel T ' % lean_id(g), t)
+            texts.append(t)
+        txt = ('mutual\n' + '\n'.join(texts) + 'end\n') if len(comp) > 1 else texts[0]
+        for f in comp:
+            d = self.done[f]
+            names = ' '.join(re.match(r'\((\w+) :', p).group(1) for p in d['params'])
+            txt += '\ndef %s (T : Tables α) %s : M (%s) := %s_fuel FUEL T %s\n' % (lean_id(f), ' '.join(d['params']), d['rty'], lean_id(f), names)
+        out.append((comp, txt))
+    return out
+Emitter.emit_fns_grouped = _emit_fns_grouped
+
 def callees_of_body(node, tu=None):
     body = [c for c in inner(node) if kind(c) == 'CompoundStmt']
     return callees_of(body[0], None, tu) if body else set()
